@@ -66,6 +66,7 @@ def run(chk, rules=None, as_prop=None):
     chk.rule("G4", "every verb builder passes each child through check_subquery before updating the cache")
     chk.rule("G5", "no guard fires on the element-wise / single-summarize / final-slice class of pipelines")
     chk.rule("G6", "check_subquery: alias search, stop set, re-test, SubqueryError; assertions hold for every caller")
+    chk.rule("G8", "the function type (element-wise / aggregate / window) of a composite expression accounts for every child: no child's ftype() is computed and discarded inside an ftype method")
     chk.rule("G7", "SqlImpl.compile_ast materialises SubqueryMarker as a subquery and restarts the query state")
 
     cache = repo.mod("pipe.cache")
@@ -147,6 +148,24 @@ def run(chk, rules=None, as_prop=None):
     # the marker makes every column a plain element-wise column of the subquery
     chk.ob("G2", cfg_cache.module, cfg_cache.func, "SubqueryMarker re-types columns as ELEMENT_WISE", "ELEMENT_WISE" in reset.get("cols", ""),
            "columns keep their window / aggregate function type across a subquery marker")  # fmt: skip
+
+    # ---- G8 the state atom WINDOWED is only as good as ftype(): every child must contribute
+    n8 = 0
+    for ci in sym.colexpr_classes():
+        ft = ci.methods.get("ftype")
+        ic = ci.methods.get("iter_children")
+        if ft is None or ic is None:
+            continue
+        n8 += 1
+        dropped = [
+            st for st in ast.walk(ft)
+            if isinstance(st, ast.Expr) and isinstance(st.value, ast.Call) and isinstance(st.value.func, ast.Attribute) and st.value.func.attr == "ftype"
+        ]
+        chk.ob("G8", ci.module, dropped[0] if dropped else ft, f"{ci.name}.ftype uses the ftype of every child it computes", not dropped,
+               f"`{norm(dropped[0])[:80] if dropped else ''}` in {ci.name}.ftype computes a child's function type and throws it away: a window / "
+               "aggregate function in that child (e.g. a case condition) leaves the expression ELEMENT_WISE, the cache does not know the column "
+               "is a window column and no subquery guard fires (WHERE on a window function in SQL)")  # fmt: skip
+    chk.floor("G8", "composite expression classes with own ftype()", n8, 2)
 
     # ---- G4 builders
     _builders(chk, sym)
